@@ -2,6 +2,8 @@ package lib
 
 import (
 	"github.com/verily-src/fhirpath-go/fhirpath"
+	"github.com/verily-src/fhirpath-go/fhirpath/internal/expr"
+	"github.com/verily-src/fhirpath-go/fhirpath/internal/funcs/impl"
 	"github.com/verily-src/fhirpath-go/fhirpath/system"
 	"github.com/verily-src/fhirpath-go/internal/fhir"
 )
@@ -39,3 +41,17 @@ func EvalOutcome(f *Forest, src string, res []fhir.Resource, copts []fhirpath.Co
 
 // Coll builds a system.Collection.
 func Coll(items ...any) system.Collection { return system.Collection(items) }
+
+func init() {
+	RegisterSentinels(
+		ErrSentinel{fhirpath.ErrInvalidField, "InvalidField"},
+		ErrSentinel{fhirpath.ErrUnsupportedType, "UnsupportedType"},
+		ErrSentinel{fhirpath.ErrExistingConstant, "ExistingConstant"},
+		ErrSentinel{expr.ErrNotSingleton, "NotSingleton"},
+		ErrSentinel{expr.ErrInvalidType, "InvalidType"},
+		ErrSentinel{expr.ErrConstantNotFound, "ConstantNotFound"},
+		ErrSentinel{expr.ErrToBeImplemented, "NotImplemented"},
+		ErrSentinel{impl.ErrWrongArity, "WrongArity"},
+		ErrSentinel{system.ErrTypeMismatch, "TypeMismatch"},
+	)
+}
